@@ -604,6 +604,23 @@ theorem ct_resolution_pos (sqrt : α → α) (hs : ∀ x, 0 ≤ x → 0 ≤ sqrt
   have : 0 < sqrt (cosA * cosA - p * p) - p * (sinA / cosA) := by linarith
   positivity
 
+/-- … and on the obtuse branch (angle between 90° and 180°: `cos < 0 < sin`, so `tan < 0` and the pixel width *grows*
+with wavelength) it is positive as soon as the square root is defined, `p² ≤ cos²` -/
+theorem ct_resolution_pos_obtuse (sqrt : α → α) (hs : ∀ x, 0 ≤ x → 0 ≤ sqrt x ∧ sqrt x * sqrt x = x)
+    (cosA sinA grating m dxdp fl wl : α) (hc : cosA < 0) (hsin : 0 < sinA)
+    (hg : 0 < grating) (hm : 0 < m) (hd : 0 < dxdp) (hf : 0 < fl) (hw : 0 < wl)
+    (hp : (0.5 * m * grating * wl) * (0.5 * m * grating * wl) ≤ cosA * cosA) :
+    0 < ctResolution sqrt cosA (sinA / cosA) grating m dxdp fl wl := by
+  unfold ctResolution
+  set p := 0.5 * m * grating * wl with hpdef
+  have hp0 : 0 < p := by
+    have : (0.5 : α) = 1 / 2 := by norm_num
+    rw [hpdef, this]; positivity
+  obtain ⟨hs0, _⟩ := hs (cosA * cosA - p * p) (by linarith)
+  have htan : sinA / cosA < 0 := div_neg_of_pos_of_neg hsin hc
+  have : 0 < sqrt (cosA * cosA - p * p) - p * (sinA / cosA) := by nlinarith
+  positivity
+
 /-! ### pixel centres -/
 
 theorem centres_length (l : List α) : (centres l).length = (pixels l).length := by
@@ -738,6 +755,11 @@ example : ctEdges (fun _ : ℚ => 1 / 2) 600 3 = [600, 1201 / 2, 601, 1203 / 2] 
 (angle with cos = 4/5, sin = 3/5; grating 2·10⁻³ nm⁻¹, first order, 600 nm: p = 0.6 < cos² = 0.64) -/
 example : 0 < ctResolution Real.sqrt (4 / 5 : ℝ) ((3 / 5) / (4 / 5)) (1 / 500) 1 20000 1000000000 600 := by
   apply ct_resolution_pos Real.sqrt (fun x hx => ⟨Real.sqrt_nonneg x, Real.mul_self_sqrt hx⟩) (4 / 5) (3 / 5)
+  all_goals norm_num
+
+/-- obtuse branch, non-vacuity: cos = -4/5, sin = 3/5, p = 0.6 -/
+example : 0 < ctResolution Real.sqrt (-4 / 5 : ℝ) ((3 / 5) / (-4 / 5)) (1 / 500) 1 20000 1000000000 600 := by
+  apply ct_resolution_pos_obtuse Real.sqrt (fun x hx => ⟨Real.sqrt_nonneg x, Real.mul_self_sqrt hx⟩) (-4 / 5) (3 / 5)
   all_goals norm_num
 
 /-- the two filters of test_spectral_properties: range (397, 704), 512 bins at 10 bins per window -/
